@@ -5,10 +5,12 @@
      K45  general-ratio branch of SafeDurationCast (unreachable with the standard units)
      K41 / K42  lenient acceptance outside the documented grammar (field widths, text after 'Z', repeated or
           reordered duration components, text after white space)
-     K48  8-bit representations: std::chrono::round / floor wrap *)
+     K48  8-bit representations: std::chrono::round / floor wrap
+     K49  duration text with a component that alone is not a whole number of target ticks (PT30M1800S into hours):
+          out_of_range although the sum is representable *)
 From BS Require Import Base ChronoSpec ChronoModel ChronoArith ChronoDecimal ChronoSweep ChronoCalendar ChronoYear
   ChronoSafe ChronoSafeAdd ChronoText ChronoTp ChronoTpParse ChronoTpRt ChronoTs ChronoRefute
-  ChronoDur ChronoDurPrint ChronoDurParse ChronoDurRt ChronoClassify ChronoClassify2 ChronoClassify3 ChronoProps.
+  ChronoDur ChronoDurPrint ChronoDurParse ChronoDurRt ChronoClassify ChronoClassify2 ChronoClassify3 ChronoDurClassify ChronoProps.
 Local Open Scope Z_scope.
 
 (* ---- ParseSecondFractions: exact for every fraction of 1..9 digits (the double integer division
@@ -164,6 +166,47 @@ Theorem T_C15_tp_classify_outside : forall P R f, c14_rep P R -> tf_wf f -> k35_
 Proof. exact tp_classify_grammar. Qed.
 Print Assumptions T_C15_tp_classify_outside.
 
+(* ---- T_C15_dur_classify.  Specification (ChronoSpec.v): dur_grammar s  =  s is df_render f for fields f with
+        df_wf f: [+-]P[nW][nD][T[nH][nM][n[(.|,)f]S]], every n a non-empty digit string of ANY length, 1..9 fraction
+        digits, at least one component, 'T' exactly when a time component follows;  dur_expected P R f  =  the count
+        count_of P gives the denoted duration (sign * (df_secs f seconds + df_fns f nanoseconds): whole seconds
+        exactly, only the fraction rounded, half to even) if it fits R, otherwise out_of_range.
+        Full strength, for R int64 / int32 and every precision:
+          forall s,  (forall f, df_wf f -> s = df_render f -> dur_parse P R s = dur_expected P R f)  /\
+                     (~ dur_grammar s -> dur_parse P R s = Err InvalidArgument).
+        FALSE twice: K42 (second half: texts outside the grammar are accepted) and K49 (first half: "PT30M1800S"
+        is exactly one hour, read into hours it is out_of_range, because 30 minutes alone is not a whole number of
+        hours). ---- *)
+Theorem T_C15_dur_classify_refuted :
+  (~ dur_grammar text_K42 /\ dur_parse Ps I64 text_K42 = Ok 3601) /\
+  (df_wf fields_K49 /\ dur_split Ph fields_K49 = true /\ dur_expected Ph I64 fields_K49 = Ok 1 /\
+   dur_parse Ph I64 (df_render fields_K49) = Err OutOfRange).
+Proof. exact c15_dur_classify_refuted. Qed.
+Print Assumptions T_C15_dur_classify_refuted.
+
+(* first half, outside the class dur_split P f (ChronoDurClassify.v, decidable: some component, taken alone, is not
+   a whole number of ticks of P, or its digits exceed 2^64-1, 2^63 after a minus sign): on EVERY text of the
+   documented grammar the result is exactly the specified classification — the denoted count, or out_of_range; in
+   particular never invalid_argument, never UB, never a wrapped or truncated count *)
+Theorem T_C15_dur_classify_outside : forall P R f, rep2 R -> df_wf f -> dur_split P f = false ->
+  dur_parse P R (df_render f) = dur_expected P R f.
+Proof. exact dur_classify_grammar. Qed.
+Print Assumptions T_C15_dur_classify_outside.
+
+(* inside the class as well: the denoted count or out_of_range, nothing else (the claim of C15 as worded, for
+   every text of the documented duration grammar); what the class adds is only that out_of_range may be reported
+   for a representable value *)
+Theorem T_C15_dur_value_or_range : forall P R f, rep2 R -> df_wf f ->
+  dur_parse P R (df_render f) = dur_expected P R f \/ dur_parse P R (df_render f) = Err OutOfRange.
+Proof. exact dur_classify_weak. Qed.
+Print Assumptions T_C15_dur_value_or_range.
+
+(* the class for targets of seconds and finer: only the magnitude limit of a component *)
+Theorem T_C15_dur_class_fine : forall P f, pnum P = 1 ->
+  forallb (fun it => mag_ok (df_neg f) (item_v it)) (df_items f) = true -> dur_split P f = false.
+Proof. exact dur_split_fine. Qed.
+Print Assumptions T_C15_dur_class_fine.
+
 (* ======================================================================================================
    NOT PROVED (kept here at full strength; nothing below is claimed by the obligations above)
 
@@ -174,12 +217,13 @@ Print Assumptions T_C15_tp_classify_outside.
      reported as out_of_range at that point), fraction digits of any length when all zero, anything after 'Z'.
      Needs the inversion of ParseIsoUtc / std::from_chars (Ok or OutOfRange => the text has that shape); not done.
 
-   T_C15_dur_classify : the same two halves for durations with dur_grammar / dur_denotes (uint64 magnitudes, sign,
-     unit letter by section, fraction only in the seconds part, negative into unsigned = OutOfRange); the second
-     half is FALSE because of K42; nothing proved beyond the shared building blocks and T_C14_duration (the texts
-     the library prints parse back exactly).
+   T_C15_dur_classify, second half (texts OUTSIDE the grammar):
+     forall P R s, ~ dur_grammar s -> ~ dur_lenient s -> dur_parse P R s = Err InvalidArgument
+     where dur_lenient is the class of K42 (components repeated or in any order inside their section, anything
+     after the first white space).  Needs the inversion of the component loop / std::from_chars; not done.
+     Negative texts into unsigned targets (out_of_range by the first check) are outside rep2 and not stated.
 
-   Representation domains: int8_t targets are outside T_C15_round and T_C15_tp_classify_outside (K48); uint64
+   Representation domains: int8_t targets are outside T_C15_round, T_C15_tp_classify_outside and T_C15_dur_classify_outside (K48); uint64
    time points (the parser computes the day number in int64, so uint64 day counts above 2^63 are reported
    out_of_range), time_t / tm / char16_t / char32_t targets and inputs: correspondence only.
    ====================================================================================================== *)
